@@ -242,7 +242,16 @@ EXTRA8 = {
     "C13": " Wave 8: list-shaped targets; the consumer's iteration accessors and per-child modified flags in retarget cycles.",
     "C17": " Wave 8: the push source may book a timer of its own in its start hook; pushes before that time must not make the loop forget it.",
 }
+EXTRA9 = {
+    "C02": " Wave 9: children of map_ over a dynamic list among the dynamic children.",
+    "C11": " Wave 9: the library operator passed directly as the function value (lifted-kernel path), also mul_.",
+    "C14": " Wave 9: node-level error capture on a node with start / stop hooks; the node's own stop code must have run as often as its own start code completed (beside the engine's observer events).",
+    "C15": " Wave 9: twin intern-eligible consumers on the key set of a map_'s ordinary output and of its error output.",
+    "C19": " Wave 9: constrained scalar variables (~T:{int,str}).",
+}
 for _k, _v in EXTRA.items():
+    CLAIMED[_k]["text"] += _v
+for _k, _v in EXTRA9.items():
     CLAIMED[_k]["text"] += _v
 for _k, _v in EXTRA8.items():
     CLAIMED[_k]["text"] += _v
